@@ -261,11 +261,15 @@ add('C03', 'proof', 'Lean 4 theorems: for every size, T, step errors and measure
     '(Props/C03/TParity.lean: always two bits, non-zero iff success = False; each stage parity = number of time-wrapping fused '
     'pairs mod 2, independent of order and orientation of the mates; a single time step gives the all-zero vector and never '
     'trips the assert; decode_ftp never raises) and tied through the real app.run_once_ftp on every rotated-toric FTP case '
-    '— 32 theorems. '
+    '— 32 theorems. Edge weights (Props/C03/Weights.lean, 26 theorems about Model/SmwpmWeight.lean): the step counts of '
+    '_distance (periodic time distance <= T/2, box rule, both lattice axes periodic in the toric code), which argument '
+    'classes make a step weight undefined, _cluster_distance (attained minimum, symmetric, zero between virtual nodes); for '
+    'every pair of nodes that passes the _add_edge filters _distance is defined (graph construction never raises for given '
+    'p in [0,1), q in [0,1], any bias), each filter is necessary, weights are orientation-independent and non-negative. '
     'Not a theorem: that a perfect matching exists for every reachable array and that networkx returns one (checked per '
     'decode). Tie: recorded graphs / matchings / clusters / recoveries compared exactly with the model; run_once_ftp and direct '
     'decode_ftp on every reachable array of the smallest lattices (T<=3) judged by the verified monitor.',
-    TB + 'edge weights and gt.mwpm are not modelled (any perfect matching suffices for this property).')
+    TB + 'gt.mwpm is not modelled (any perfect matching suffices for this property); the float VALUES of the three step weights (math.log) are recomputed in the harness, their step counts / domains / pruning are modelled.')
 NOT_YET = {}
 
 
